@@ -51,6 +51,10 @@ def make_input(pt, kind, seed):
     """pt in {0,1}; kind in nd,u11,u22,u31"""
     if kind == 'nd':
         return np.array(PR.POINTS[pt], dtype=float)
+    if kind == 'c11':        # complex coefficients, same (D,P) and shape as 'u11'
+        d = PR.curve(seed + 5 * pt, 1, 1, pts=(pt, 1 - pt, 2)).astype(complex)
+        d += 1j * 0.125 * np.arange(1, PR.NX + 1).reshape(1, 1, PR.NX) / PR.NX
+        return UTPM(d)
     D, P = {'u11': (1, 1), 'u22': (2, 2), 'u31': (3, 1)}[kind]
     return UTPM(PR.curve(seed + 5 * pt, D, P, pts=(pt, 1 - pt, 2)))
 
@@ -66,6 +70,7 @@ def event_menu(scalar, tier):
     for pt in (0, 1):
         for k in kinds:
             evs.append(('fwd', pt, k))
+    evs.append(('fwd', 1, 'c11'))
     evs += [('rev', 'unit'), ('rev', 'dense')]
     if scalar:
         evs += [('gradient', 0), ('gradient', 1), ('hess_vec', 0)]
@@ -73,7 +78,7 @@ def event_menu(scalar, tier):
             evs += [('hessian', 1)]
     else:
         evs += [('jacobian', 0), ('jacobian', 1)]
-    evs += [('vec_jac', 1), ('jac_vec', 0), ('other',)]
+    evs += [('vec_jac', 1), ('jac_vec', 0), ('other',), ('jacobian_utpm', 0)]
     return evs
 
 
@@ -152,6 +157,8 @@ def step_raw(sys_, ev):
         return np.asarray(cg.vec_jac(vec(out_size(sys_), 2, seed), pt))
     if kind == 'jac_vec':
         return np.asarray(cg.jac_vec(pt, vec(NX, 3, seed)))
+    if kind == 'jacobian_utpm':
+        return cg.jacobian(UTPM(PR.curve(seed + 7, 2, 1, pts=(ev[1], 2, 1)))).data
     if kind == 'other':
         cg2, x2, y2 = PR.record(PR.SCENARIOS['view1'], np.array(PR.POINTS[2], dtype=float))
         g = cg2.gradient(np.array(PR.POINTS[1], dtype=float))
@@ -218,6 +225,12 @@ def reference(sys_before_input, prog, ev, seed, M):
         s[0, 0] = vec(M, 2, seed)
         xbar, _ = fresh_rev(prog, xin, s.reshape(y.data.shape))
         return xbar[0, 0]
+    if kind == 'jacobian_utpm':
+        Function.cgraph = None
+        cgf, xf, yf = PR.record(prog, np.array(PR.POINTS[REC_POINT], dtype=float))
+        r = cgf.jacobian(UTPM(PR.curve(seed + 7, 2, 1, pts=(ev[1], 2, 1)))).data.copy()
+        Function.cgraph = None
+        return r
     if kind == 'jac_vec':
         xin = np.zeros((2, 1, NX))
         xin[0, 0] = pt
@@ -272,6 +285,8 @@ def close(a, b):
         return False
     if a.dtype == object or b.dtype == object:
         return False
+    if np.iscomplexobj(a) != np.iscomplexobj(b):
+        return False
     return bool(np.all(np.abs(a - b) <= TOL * (1.0 + np.abs(b))))
 
 
@@ -294,7 +309,7 @@ def explore_program(prog, reckind, tier, seed, depth=None, only_history=None):
     M = int(np.prod(oshape, dtype=int))
     menu = event_menu(scalar, tier)
     if len(tuple(oshape)) > 1:      # the Jacobian drivers are defined for F: R^N -> R^M with a 1-D (or 0-D) result
-        menu = [e for e in menu if e[0] not in ('jacobian', 'vec_jac')]
+        menu = [e for e in menu if e[0] not in ('jacobian', 'vec_jac', 'jacobian_utpm')]
     # events whose history-free reference itself raises (unsupported pullback, ...) are not part of the alphabet
     usable = []
     refcache = {}
@@ -340,6 +355,14 @@ def explore_program(prog, reckind, tier, seed, depth=None, only_history=None):
         if isinstance(exc, HeldResultChanged):
             return {'kind': 'earlier-result-overwritten', 'error': str(exc)}
         if exc is not None:
+            # an exception is a matter of history only if the same call succeeds on a fresh single-use graph
+            try:
+                if ev[0] == 'rev':
+                    reference(holder['cur'], prog, ev, seed, M)
+                else:
+                    reference(None, prog, ev, seed, M)
+            except Exception:
+                return None
             return {'kind': 'exception-after-history', 'error': AD.last_line(exc)}
         if ev[0] == 'rev':
             cur = holder['cur']
